@@ -83,6 +83,8 @@ def r_stmts(stmts, op, ind, out):
     if k == "assign":
       # an optional 4th element overrides the assignment operator (C09 defect injection)
       out.append("%s%s %s %s" % (" " * ind, r_path(st[1]), st[3] if len(st) > 3 else op, r_expr(st[2])))
+    elif k == "tmpset":
+      out.append("%s%s[%d:%d] = %s" % (" " * ind, st[1], st[2], st[3], r_expr(st[4])))
     elif k == "call":
       out.append("%s%s(%s)" % (" " * ind, st[1], ", ".join(r_expr(x) for x in (st[2] if len(st) > 2 else []))))
     elif k == "tmp":
